@@ -102,7 +102,7 @@ def do_step(step, root):
     if op == "inplace_cycle":
         # ONE Reader object carried through decompress-in-place -> open -> read -> compress-in-place ->
         # open -> read, `cycles` times
-        sr = spikeglx.Reader(cbin)
+        sr = spikeglx.Reader(cbin, sort=False) if step.get("unsorted") else spikeglx.Reader(cbin)      # reader options travel with the carried object
         kw = {"overwrite": True} if step.get("overwrite") else {}
         shapes = [tuple(int(x) for x in sr.shape)]
         same = True
@@ -243,6 +243,7 @@ def _next_step(r, model, fs, ns, nfaults):
         st["overwrite"] = model["bin"] != "absent"
     if op == "inplace_cycle":
         st["cycles"] = r.choice([1, 1, 2])
+        st["unsorted"] = r.random() < 0.4
     if op == "decompress" and model["bin"] != "absent" and r.random() < 0.5:
         # the naive retry: same call again although a (possibly partial) .bin is in the way; the
         # documented behaviour is a refusal (ValueError from the dependency) that changes nothing
